@@ -8,8 +8,10 @@ instead of wrapping silently.
 import time
 import z3
 
+import os
 W = 128
 LIM = 1 << 126
+TRACE = bool(os.environ.get("SYMX_TRACE"))
 
 
 class Unsupported(Exception):
@@ -185,12 +187,13 @@ def _mod_term(a, c):
 
 
 class SymInt:
-    __slots__ = ("t", "lo", "hi")
+    __slots__ = ("t", "lo", "hi", "fp")
 
-    def __init__(self, t, lo, hi):
+    def __init__(self, t, lo, hi, fp=None):
         self.t = t
         self.lo = lo
         self.hi = hi
+        self.fp = fp      # optional z3 FP term with the same (integral) value
 
     # ---- conversions -------------------------------------------------------------
     def __bool__(self):
@@ -244,24 +247,37 @@ class SymInt:
         raise Unsupported("bit_length of symbolic int")
 
     # ---- arithmetic --------------------------------------------------------------
+    def _fl(self, o, op, swap=False):
+        from . import symfloat
+        if isinstance(o, (float, symfloat.SymFloat)):
+            a, b = symfloat.lift(self), symfloat.lift(o)
+            if swap:
+                a, b = b, a
+            return getattr(a, op)(b)
+        return NotImplemented
+
     def __add__(self, o):
         b = _lift(o)
         if b is None:
-            return NotImplemented
+            return self._fl(o, "__add__")
         return mk(self.t + b.t, self.lo + b.lo, self.hi + b.hi)
 
-    __radd__ = __add__
+    def __radd__(self, o):
+        b = _lift(o)
+        if b is None:
+            return self._fl(o, "__add__", True)
+        return mk(self.t + b.t, self.lo + b.lo, self.hi + b.hi)
 
     def __sub__(self, o):
         b = _lift(o)
         if b is None:
-            return NotImplemented
+            return self._fl(o, "__sub__")
         return mk(self.t - b.t, self.lo - b.hi, self.hi - b.lo)
 
     def __rsub__(self, o):
         b = _lift(o)
         if b is None:
-            return NotImplemented
+            return self._fl(o, "__sub__", True)
         return mk(b.t - self.t, b.lo - self.hi, b.hi - self.lo)
 
     def __neg__(self):
@@ -283,7 +299,7 @@ class SymInt:
     def __mul__(self, o):
         b = _lift(o)
         if b is None:
-            return NotImplemented
+            return self._fl(o, "__mul__")
         c = (self.lo * b.lo, self.lo * b.hi, self.hi * b.lo, self.hi * b.hi)
         lo, hi = min(c), max(c)
         if lo <= -LIM or hi >= LIM:
@@ -549,6 +565,8 @@ class Context:
         if seed:
             self.solver.set("random_seed", seed & 0x7FFFFFFF)
         self.query_timeout_ms = query_timeout_ms
+        self.fast_ms = 3000
+        self._last_model = None
         self.max_decisions = max_decisions
         self.concretize_cap = concretize_cap
         self.prefix = []
@@ -595,12 +613,32 @@ class Context:
 
     # ---- solver helpers -----------------------------------------------------------
     def _check(self, *assumptions, kind="q_feas"):
+        """sat? of path condition + assumptions.  The incremental solver gets a short budget first;
+        if it gives up, the query is re-decided from scratch by a one-shot solver (z3's
+        non-incremental pipeline is far better on FP / conversion-heavy queries)."""
         t0 = time.perf_counter()
+        fast = min(self.fast_ms, self.query_timeout_ms)
+        self.solver.set("timeout", fast)
         r = self.solver.check(*assumptions)
-        self.stats["solver_s"] += time.perf_counter() - t0
+        if r == z3.sat:
+            self._last_model = self.solver.model()
+        elif r == z3.unknown:
+            s2 = z3.Solver()
+            s2.set("timeout", self.query_timeout_ms)
+            s2.add(self.solver.assertions())
+            s2.add(*assumptions)
+            r = s2.check()
+            self.stats["oneshot"] = self.stats.get("oneshot", 0) + 1
+            if r == z3.sat:
+                self._last_model = s2.model()
+            elif r == z3.unknown:
+                self.stats["solver_s"] += time.perf_counter() - t0
+                raise Inconclusive("solver returned unknown (%s)" % s2.reason_unknown())
+        dt = time.perf_counter() - t0
+        self.stats["solver_s"] += dt
         self.stats[kind] += 1
-        if r == z3.unknown:
-            raise Inconclusive("solver returned unknown (%s)" % self.solver.reason_unknown())
+        if TRACE and dt > 1.0:
+            print("[query %.2fs] %s %s" % (dt, kind, r), flush=True)
         return r == z3.sat
 
     def _model_says(self, t):
@@ -640,19 +678,19 @@ class Context:
             can_t = True
             keep = self.model
             can_f = self._check(nt)
-            mf = self.solver.model() if can_f else None
+            mf = self._last_model if can_f else None
             mt = keep
         elif ms is False:
             self.stats["model_hits"] += 1
             can_f = True
             mf = self.model
             can_t = self._check(t)
-            mt = self.solver.model() if can_t else None
+            mt = self._last_model if can_t else None
         else:
             can_t = self._check(t)
-            mt = self.solver.model() if can_t else None
+            mt = self._last_model if can_t else None
             can_f = self._check(nt)
-            mf = self.solver.model() if can_f else None
+            mf = self._last_model if can_f else None
         if can_t and can_f:
             node = Node(True, [False], "b", None, mf)
             val = True
@@ -694,7 +732,7 @@ class Context:
             while True:
                 if not self._check():
                     break
-                m = self.solver.model()
+                m = self._last_model
                 v = m.eval(x.t, model_completion=True).as_signed_long()
                 vals.append(v)
                 if len(vals) > cap:
@@ -725,7 +763,7 @@ class Context:
             if not self._check(t):
                 self.stats["aborted"] += 1
                 raise PathAbort("assumption infeasible")
-            self.model = self.solver.model()
+            self.model = self._last_model
         self._add(t)
 
     # ---- fresh inputs ----------------------------------------------------------------
@@ -773,8 +811,14 @@ class Context:
             self._violation(label, key, detail)
             raise PathAbort("obligation false on this path")
         t = c.t
-        if self._check(z3.Not(t), kind="q_oblig"):
-            m = self.solver.model()
+        _t0 = time.perf_counter()
+        try:
+            bad = self._check(z3.Not(t), kind="q_oblig")
+        finally:
+            if TRACE:
+                print("[prove %.2fs] %s" % (time.perf_counter() - _t0, label), flush=True)
+        if bad:
+            m = self._last_model
             self._violation(label, key, detail, m)
             # continue under the obligation if possible, so further violations are found
             self.assume(c)
@@ -787,7 +831,7 @@ class Context:
             if self.model is None:
                 if not self._check(kind="q_witness"):
                     raise PathAbort("infeasible at witness extraction")
-                self.model = self.solver.model()
+                self.model = self._last_model
             model = self.model
         out = {}
         for nm, kind, t in self.inputs:
